@@ -11,6 +11,10 @@ Three kinds of cases:
   scale a fixed family at realistic scale (c02_scale.py; oracle only, always first): sample3D / sample3DUV, Grid+Forcing
         (+ Tracker) and complete ladim.main runs with 1000 ... 130000 particles in random order, a large grid with
         window offsets in the hundreds, sixteen forcing files, a continuous release growing through several thousands.
+  order a fixed family of metamorphic pairs (c02_order.py; oracle only, after the scale family): the same fields written with the
+        variables / dimensions of the NetCDF file in another order, extra_forcing listed in another order or in part, each
+        variable with its own packing or float storage, per-file time units and orders of a two-file forcing, and one pair of
+        complete ladim.main runs with the configuration keys, output variables and release columns in another order.
 Everything of a case is regenerated from its description (a seed), so a replay file is small.
 The oracle is the property text in GLOBAL grid coordinates (no slicing, no offsets): bilinear between the four
 surrounding u- (v-) points, linear in depth between levels K-1 and K, zero through land faces, scalar = own cell;
@@ -63,6 +67,10 @@ def gen_cases(ctx):
     import c02_scale
 
     out.extend(c02_scale.gen_scale_cases())
+    # arrangements that must not matter (a fixed family of metamorphic pairs, nothing drawn from rng either)
+    import c02_order
+
+    out.extend(c02_order.gen_order_cases())
     for n in range(nk):
         out.append({"k": "s3d", "seed": rng.randrange(10**9), "meth": rng.choice([0, 0, 0, 1]), "exact": n % 2 == 0,
                     "N": rng.randint(2, 4), "jn": rng.randint(2, 6), "im": rng.randint(2, 7), "P": 12})
@@ -683,6 +691,10 @@ def eval_case(desc, ctx):
         import c02_scale
 
         return c02_scale.eval_scale_case(desc, ctx)
+    if desc["k"] == "order":
+        import c02_order
+
+        return c02_order.eval_order_case(desc, ctx)
     if desc["k"] == "landrow":
         return eval_landrow(desc, ctx)
     if desc["k"] == "fbits":
